@@ -48,7 +48,8 @@ def probes():
     seqs = [[2, 3], (10,), [], (), [2, 1], [2, 2.0], [True], [0.1, float("nan")], [0.1, -0.2], (0.5, 0), [None],
             [1000, 2000, "x"], {}, object(),
             # hashable values that compare (and hash) EQUAL to valid ones but are of another type
-            (2, 3), (2.0, 3.0), (10.0,), (True, 3)]
+            (2, 3), (2.0, 3.0), (10.0,), (True, 3),
+            (0.1, float("inf")), [float("-inf"), 0.2], (float("inf"),)]
     return nums + strs + seqs
 
 
